@@ -6,6 +6,10 @@ import RuxModel.Model.Bind
     src  <method> <ctype>                         -> query|form|multipart|json|xml|unsupported
     bind <api> <validator> <method> <ctype> <mclass> <rawquery> <body> <hdr> <jdec> <xdec> <mpv>
                                                   -> ok <V> <Q> | err | panic:err | unsupported
+    bindc <carrier> <api> … (the 11 fields of bind)  -> the same answer: `<carrier>` ∈ rd | nobody | nop | newreq | wire
+                                                  says how `r.Body` delivers `<body>` (`nobody` = `http.NoBody`,
+                                                  which demands an empty `<body>`); the model's `Request.body` is
+                                                  the byte content, whatever carries it
     esc <s> -> s <hex>   unesc <s> -> ok <hex> | err
     pq <s>  -> v <vals> <0|1>                     (`url.ParseQuery`: values sorted by key, error flag)
     enc <pairs> -> s <hex>                        (`url.Values.Encode` of the map built from the pairs)
@@ -115,12 +119,15 @@ def valsStr (m : Vals) : String :=
   String.intercalate "," ((sortVals m).map fun e =>
     Bytes.toHex e.1 ++ ":" ++ String.intercalate "/" (e.2.map Bytes.toHex))
 
-def bindStep : List String → String
-  | ["src", m, ct] =>
-    match Bytes.ofHex m, Bytes.ofHex ct with
-    | some m, some ct => sourceStr (autoSource m ct)
-    | _, _ => "bad-op"
-  | ["bind", api, val, m, ct, mc, rq, body, hdr, jd, xd, mpv] =>
+/-- the ways a request delivers its body; none of them is visible to binding (`BodyCarrier.content`) -/
+def parseCarrier (carrier body : String) : Option (Bytes → BodyCarrier) :=
+  if carrier = "nobody" then (if body = "-" then some (fun _ => .noBody) else none)
+  else if ["rd", "nop", "newreq", "wire"].contains carrier then some .reader
+  else none
+
+/-- the `bind` op (fields after the op name); `carry` says how the body bytes are delivered -/
+def bindOp (carry : Bytes → BodyCarrier) : List String → String
+  | [api, val, m, ct, mc, rq, body, hdr, jd, xd, mpv] =>
     match parseApi api, Bytes.ofHex m, Bytes.ofHex ct, parseMClass mc, Bytes.ofHex rq, Bytes.ofHex body,
         parsePairList hdr, parseVerdict jd, parseVerdict xd, parseMultipartVerdict mpv with
     | some (api, must), some m, some ct, some mc, some rq, some body, some hdr, some jd, some xd, some mpv =>
@@ -133,13 +140,25 @@ def bindStep : List String → String
       let header : Vals :=
         valsOfPairs ((if ct.isEmpty then [] else [(kContentType, ct)]) ++ hdr)
       let r : Request Bool := {
-        method := m, ctype := ct, rawQuery := rq, body := body, header := header,
+        method := m, ctype := ct, rawQuery := rq, body := (carry body).content, header := header,
         mclass := mc, multipartValues := mpv }
       match bindWith c r api with
       | .ok v => s!"ok {Bytes.toHex v.1} {Bytes.toHex v.2}"
       | .error (.codec true) => "unsupported"
       | .error _ => if must then "panic:err" else "err"
     | _, _, _, _, _, _, _, _, _, _ => "bad-op"
+  | _ => "bad-op"
+
+def bindStep : List String → String
+  | ["src", m, ct] =>
+    match Bytes.ofHex m, Bytes.ofHex ct with
+    | some m, some ct => sourceStr (autoSource m ct)
+    | _, _ => "bad-op"
+  | "bind" :: rest => bindOp .reader rest
+  | "bindc" :: carrier :: rest =>
+    match parseCarrier carrier (rest.getD 6 "") with
+    | some carry => bindOp carry rest
+    | none => "bad-op"
   | ["esc", s] =>
     match Bytes.ofHex s with
     | some s => "s " ++ Bytes.toHex (escape s)
